@@ -203,3 +203,81 @@ theorem waitTrapLoop_conserve (body : Body) (hm : MapPreserving body) (sigs : Li
         rw [ih hrest, owed_set_same t s x g hg]
 
 end YashModel.Trap
+
+namespace YashModel.Trap
+
+/-! ### the built-in as a history of `TrapSet` operations -/
+
+/-- the `TrapSet` operations one `trap` command performs -/
+def trapCmdOps (origin : Nat) (interactive : Bool) : TrapCmd → List Op
+  | .printAll _ => (allConditions.filter fun c => !(c == SIGKILL || c == SIGSTOP)).map Op.peek
+  | .print conds => conds.map Op.peek
+  | .setAction a conds => conds.map fun c => Op.setAction c a origin interactive
+
+/-- the operations of a whole invocation (none if the operands are rejected) -/
+def trapMainOps (cmdOf : String → Nat) (origin : Nat) (interactive print : Bool) (operands : List String)
+    : List Op :=
+  match interpret cmdOf print operands with
+  | .error _ => []
+  | .ok cmd => trapCmdOps origin interactive cmd
+
+theorem run_append (st : State) (a b : List Op) : run st (a ++ b) = run (run st a) b := by
+  induction a generalizing st with
+  | nil => rfl
+  | cons op a ih => exact ih _
+
+theorem displayTrap_fst (st : State) (c : Nat) (incl : Bool) :
+    (displayTrap st c incl).1 = step st (.peek c) := by
+  unfold displayTrap
+  simp only
+  split <;> rfl
+
+theorem displayAll_run (incl : Bool) (cs : List Nat) (st : State) :
+    (displayAll incl cs st).1
+      = run st ((cs.filter fun c => !(c == SIGKILL || c == SIGSTOP)).map Op.peek) := by
+  induction cs generalizing st with
+  | nil => rfl
+  | cons c cs ih =>
+    simp only [displayAll]
+    by_cases hk : c = SIGKILL ∨ c = SIGSTOP
+    · have : (!(c == SIGKILL || c == SIGSTOP)) = false := by
+        rcases hk with h | h <;> simp [h]
+      simp only [hk, if_true, List.filter_cons, this, Bool.false_eq_true, if_false]
+      exact ih st
+    · have : (!(c == SIGKILL || c == SIGSTOP)) = true := by
+        simp only [not_or] at hk
+        simp [hk.1, hk.2]
+      simp only [hk, if_false, List.filter_cons, this, if_true, List.map_cons, run]
+      rw [ih, displayTrap_fst]
+
+theorem displayEach_run (cs : List Nat) (st : State) :
+    (displayEach cs st).1 = run st (cs.map Op.peek) := by
+  induction cs generalizing st with
+  | nil => rfl
+  | cons c cs ih =>
+    simp only [displayEach, List.map_cons, run]
+    rw [ih, displayTrap_fst]
+
+theorem setActions_run (a : Action) (o : Nat) (ov : Bool) (cs : List Nat) (st : State) :
+    (setActions a o ov cs st).1 = run st (cs.map fun c => Op.setAction c a o ov) := by
+  induction cs generalizing st with
+  | nil => rfl
+  | cons c cs ih =>
+    simp only [setActions, List.map_cons, run]
+    rw [ih]; rfl
+
+theorem trapMain_run (cmdOf : String → Nat) (st : State) (o : Nat) (i p : Bool) (ops : List String) :
+    (trapMain cmdOf st o i p ops).st = run st (trapMainOps cmdOf o i p ops) := by
+  unfold trapMain trapMainOps
+  cases hi : interpret cmdOf p ops with
+  | error e => cases e <;> rfl
+  | ok cmd =>
+    have hx : (cmd.execute st o i).1 = run st (trapCmdOps o i cmd) := by
+      cases cmd with
+      | printAll incl => simp only [TrapCmd.execute, trapCmdOps]; exact displayAll_run incl _ st
+      | print cs => simp only [TrapCmd.execute, trapCmdOps]; exact displayEach_run cs st
+      | setAction a cs => simp only [TrapCmd.execute, trapCmdOps]; exact setActions_run a o i cs st
+    simp only
+    split <;> exact hx
+
+end YashModel.Trap
